@@ -1025,7 +1025,8 @@ impl<'g> StreamRun<'g> {
                     }
                 }
             },
-            SEv::Drop(i) => {
+            SEv::Drop(i) | SEv::DropUnwind(i) => {
+                let unwinding = matches!(*ev, SEv::DropUnwind(_));
                 let r = self.held.get_mut(&i).and_then(|v| {
                     if v.is_empty() {
                         None
@@ -1038,7 +1039,14 @@ impl<'g> StreamRun<'g> {
                     if i < self.dropped.len() {
                         self.dropped[i] = true;
                     }
-                    if catch_unwind(AssertUnwindSafe(move || drop(r))).is_err() {
+                    if unwinding {
+                        // the consumer's code panics while it holds the FnRef: the FnRef is dropped
+                        // during unwinding; the consumer catches the panic and carries on
+                        let _ = catch_unwind(AssertUnwindSafe(move || {
+                            let _held = r;
+                            std::panic::resume_unwind(Box::new("consumer panicked"));
+                        }));
+                    } else if catch_unwind(AssertUnwindSafe(move || drop(r))).is_err() {
                         self.stopped = true;
                     }
                 }
